@@ -176,7 +176,26 @@ def store_order(ctx, res):
         if not reported:
             res.oblige(True, fname, "", "")
         if n_val == 0:
-            raise AnalysisError(f"{fname}: no path calls {traitd}->validate")
+            # no path validates with the *defining* trait: if another
+            # trait's validator is consulted instead this is a finding (the
+            # accessed trait of a non-modifying delegate has no validator of
+            # its own), otherwise the anchor is gone
+            other = sorted({it[3].split("->validate(")[0] for p_ in paths
+                            for it in p_.trace if it[0] == "call"
+                            and it[1] == "->validate"
+                            and not it[3].startswith(traitd + "->")})
+            if other:
+                res.violation(f"{fname}:validator-of-wrong-trait",
+                              facts.loc(facts.func(fname)),
+                              f"{fname} validates with `{other[0]}->validate`"
+                              f", never with `{traitd}->validate`: for a "
+                              f"value assigned through a non-modifying "
+                              f"delegate (PrototypedFrom) the accessed trait "
+                              f"has no validator, so the value is stored "
+                              f"unvalidated and unconverted")
+            else:
+                raise AnalysisError(f"{fname}: no path calls "
+                                    f"{traitd}->validate")
     # defaults: computed and NULL-checked before they are stored
     for fname, in ((default_materialiser(get_cfacts(ctx)),),):
         paths, facts, g = paths_of(ctx, fname)
